@@ -322,6 +322,10 @@ func TestVerifC06(t *testing.T) {
 	defer env.Close()
 	var rc c06Case
 	if r.LoadReplay(&rc) {
+		if len(rc.Docs) == 0 { // a replay artefact of the proxy API add-on: nothing to do here
+			r.Finish(t, "model_checking", "replay", nil, nil)
+			return
+		}
 		if rc.Proxy {
 			c06Proxy(r, rc.Docs)
 		} else {
